@@ -71,6 +71,13 @@ serde = { version = "1.0", default-features = false }
             "MDKFACTS_CRATES": "mdk_verif_witness",
         })
         env.pop("RUSTC_WRAPPER", None)
+        # every scratch copy of the repository is a new set of path dependencies: keep the shared target directory from growing without bound
+        try:
+            du = subprocess.run(["du", "-sm", env["CARGO_TARGET_DIR"]], capture_output=True, text=True)
+            if du.returncode == 0 and int(du.stdout.split()[0]) > 6000:
+                shutil.rmtree(env["CARGO_TARGET_DIR"], ignore_errors=True)
+        except (ValueError, IndexError, OSError):
+            pass
         for fp in glob.glob(os.path.join(env["CARGO_TARGET_DIR"], "debug", ".fingerprint", "mdk_verif_witness-*")):
             shutil.rmtree(fp, ignore_errors=True)
         cmd = ["cargo", "+nightly", "check", "--offline", "--lib", "--examples", "--keep-going", "--message-format=json"]
